@@ -168,3 +168,52 @@ pub fn unwind_text(index: u64) -> String {
     t.push_str(f);
     t
 }
+
+
+// ------------------------------------------------------------------ repeats
+//
+// One fragment repeated N times (N = 1..600) inside a construct: counters,
+// run-length encodings and budgets that depend on how many tokens, elements or
+// siblings there are sit at one exact N (255/256, 128, ...).
+
+const REPEAT_FORMS: &[(&str, &str, &str)] = &[
+    ("#[tags(", "t, ", ")]\nfn main() { () }\n"),
+    ("#[", "x ", "\nfn main() { () }\n"),
+    ("fn main() { let a = [", "1, ", "]; () }\n"),
+    ("fn f(a: int32) -> int32 { a }\nfn main() { let _ = f(", "1, ", "); () }\n"),
+    ("fn f(", "p: int32, ", ") { () }\n"),
+    ("struct S { ", "a: int32, ", "}\n"),
+    ("enum E { ", "A, ", "}\n"),
+    ("fn main() { let x = 1; let _ = match x { ", "1 => 2, ", "_ => 3 }; () }\n"),
+    ("fn main() { ", "let a = 1; ", "() }\n"),
+    ("fn main() { let s = ", "\"a\" + ", "\"b\"; () }\n"),
+    ("fn main() { let t = (", "1, ", "); () }\n"),
+    ("trait T { ", "fn m(Self) -> int32; ", "}\n"),
+    ("", "import A\n", "fn main() { () }\n"),
+    ("fn main() { go ", "x y ", "; () }\n"),
+    ("fn main() { let a = 1 ", "+ 1 ", "; () }\n"),
+    ("fn main() { let x = 1; x", ".f", "; () }\n"),
+    ("fn main() { ", "// c\n", "() }\n"),
+    ("fn f[", "T, ", "]() { () }\n"),
+    ("fn main() { let s = \"", "ab", "\"; () }\n"),
+    ("fn main() { let _ = ", "!", "true; () }\n"),
+    ("#[a]\n", "#[b]\n", "fn main() { () }\n"),
+];
+pub const REPEAT_MAX: u64 = 600;
+
+pub fn repeat_count() -> u64 {
+    REPEAT_MAX * REPEAT_FORMS.len() as u64
+}
+
+pub fn repeat_text(index: u64) -> String {
+    let i = index % repeat_count();
+    let n = 1 + i % REPEAT_MAX;
+    let (pre, frag, post) = REPEAT_FORMS[(i / REPEAT_MAX) as usize];
+    let mut t = String::with_capacity(pre.len() + frag.len() * n as usize + post.len());
+    t.push_str(pre);
+    for _ in 0..n {
+        t.push_str(frag);
+    }
+    t.push_str(post);
+    t
+}
